@@ -245,30 +245,60 @@ impl serde::Serialize for HostData<'_> {
     }
 }
 
-/// Defines one context variable.  A host hands values to a context in two ways, and both are
-/// exercised: for about half of the (name, value) pairs - chosen by a hash of the pair, so that a
-/// case always replays the same way - the value is supplied as plain Rust data through
-/// `Context::add_variable` (the serde conversion), otherwise as a ready-made `Value` through
-/// `add_variable_from_value`.  Values the conversion refuses take the second way.
-pub fn supplied_as_host_data(name: &str, v: &Value) -> bool {
-    host_representable(v) && via_host_data(name, v)
-}
-
-pub fn define(ctx: &mut Context, name: &str, v: &Value) {
-    if supplied_as_host_data(name, v) {
-        if ctx.add_variable(name.to_string(), HostData(v)).is_ok() {
-            return;
+/// The same value rebuilt through the crate's `From` conversions (`Value::from(5i64)`,
+/// `Vec<Value>`, `HashMap<Key, Value>`, `String`, `Vec<u8>`, `Option`, chrono types), the way a
+/// host writes `add_variable_from_value("x", data)` with data of its own.
+fn through_from(v: &Value) -> Value {
+    match v {
+        Value::Int(i) => Value::from(*i),
+        Value::UInt(u) => Value::from(*u),
+        Value::Float(f) => Value::from(*f),
+        Value::Bool(b) => Value::from(*b),
+        Value::String(x) => {
+            if x.len() % 2 == 0 {
+                Value::from(x.as_str())
+            } else {
+                Value::from(x.as_str().to_string())
+            }
         }
+        Value::Bytes(b) => Value::from(b.as_ref().clone()),
+        Value::Null => Value::from(None::<i64>),
+        Value::Timestamp(t) => Value::from(Some(*t)),
+        Value::Duration(d) => Value::from(*d),
+        Value::List(l) => Value::from(l.iter().map(through_from).collect::<Vec<Value>>()),
+        Value::Map(m) => Value::from(m.map.iter().map(|(k, x)| (k.clone(), through_from(x))).collect::<std::collections::HashMap<cel_interpreter::objects::Key, Value>>()),
+        Value::Function(..) => v.clone(),
     }
-    ctx.add_variable_from_value(name.to_string(), v.clone());
 }
 
-pub fn via_host_data(name: &str, v: &Value) -> bool {
+/// Defines one context variable.  A host hands values to a context in three ways, and all are
+/// exercised; which one is used for a (name, value) pair is chosen by a hash of the pair, so that
+/// a case always replays the same way: as plain Rust data through `Context::add_variable` (the
+/// serde conversion), as Rust data converted by the crate's `From` impls and passed to
+/// `add_variable_from_value`, or as a ready-made `Value`.  Values the serde conversion refuses
+/// take the last way.
+pub fn supply_route(name: &str, v: &Value) -> u8 {
     let mut h: u64 = 0xcbf29ce484222325;
     for b in name.bytes().chain(value_to_sx(v).to_text().bytes()) {
         h = (h ^ b as u64).wrapping_mul(0x100000001b3);
     }
-    (h >> 17) & 1 == 1
+    match (h >> 17) % 3 {
+        1 if host_representable(v) => 1,
+        2 => 2,
+        _ => 0,
+    }
+}
+
+pub fn define(ctx: &mut Context, name: &str, v: &Value) {
+    match supply_route(name, v) {
+        1 => {
+            if ctx.add_variable(name.to_string(), HostData(v)).is_err() {
+                ctx.add_variable_from_value(name.to_string(), v.clone());
+            }
+        }
+        2 => ctx.add_variable_from_value(name.to_string(), through_from(v)),
+        _ => ctx.add_variable_from_value(name.to_string(), v.clone()),
+    }
 }
 
 fn register_builtin(ctx: &mut Context, name: &str, b: &str) {
